@@ -49,6 +49,12 @@ def build(P):
         for cond in ["1", "\"x\"", "'c'", "1.5", "1/1/2020"]:
             shapes += ["IF %s THEN\nOUTPUT \"no\"\nENDIF\nOUTPUT \"after\"" % cond, "WHILE %s DO\nOUTPUT \"no\"\nENDWHILE" % cond,
                        "REPEAT\nOUTPUT \"once\"\nUNTIL %s" % cond, "IF FALSE THEN\nOUTPUT 1\nELSE IF %s THEN\nOUTPUT 2\nENDIF" % cond]
+        for bound in (1, 2, 3, 4):
+            shapes += ["c <- 0\nWHILE c < %d DO\nc <- c + 1\nIF c = %d THEN\nCONTINUE\nENDIF\nOUTPUT \"b\", c\nENDWHILE\nOUTPUT \"end\", c" % (bound, bound),
+                       "c <- 0\nWHILE c < %d DO\nc <- c + 1\nCONTINUE\nENDWHILE\nOUTPUT \"end\", c" % bound,
+                       "c <- 0\nREPEAT\nc <- c + 1\nIF c = %d THEN\nCONTINUE\nENDIF\nOUTPUT \"b\", c\nUNTIL c >= %d\nOUTPUT \"end\", c" % (bound, bound),
+                       "FOR c <- 1 TO %d\nIF c = %d THEN\nCONTINUE\nENDIF\nOUTPUT \"b\", c\nNEXT c\nOUTPUT \"end\", c" % (bound, bound),
+                       "c <- 0\nd <- 0\nWHILE c < %d DO\nc <- c + 1\nWHILE d < c DO\nd <- d + 1\nIF d = c THEN\nCONTINUE\nENDIF\nOUTPUT \"in\", d\nENDWHILE\nOUTPUT \"out\", c\nENDWHILE" % bound]
         shapes += ["BREAK", "CONTINUE", "IF TRUE THEN\nBREAK\nENDIF\nOUTPUT 1",
                    "PROCEDURE P\nBREAK\nENDPROCEDURE\nFOR i <- 1 TO 3\nCALL P\nOUTPUT i\nNEXT i",
                    "FUNCTION F() RETURNS INTEGER\nCONTINUE\nRETURN 1\nENDFUNCTION\nWHILE TRUE DO\nOUTPUT F()\nBREAK\nENDWHILE",
@@ -113,7 +119,11 @@ def build(P):
             "FUNCTION F(x : INTEGER) RETURNS REAL\nRETURN x\nENDFUNCTION\nOUTPUT F(3)", "FUNCTION F() RETURNS CHAR\nRETURN \"a\"\nENDFUNCTION\nOUTPUT F()",
             "FUNCTION F() RETURNS INTEGER\nRETURN 1.5\nENDFUNCTION\nOUTPUT F()", "FUNCTION F() RETURNS INTEGER\nOUTPUT 1\nENDFUNCTION\nOUTPUT F()",
             "FUNCTION F(n : INTEGER) RETURNS INTEGER\nFOR i <- 1 TO 10\nIF i = n THEN\nRETURN i * 2\nENDIF\nNEXT i\nRETURN 0\nENDFUNCTION\nOUTPUT F(3), F(20)",
-            "RETURN 5", "PROCEDURE P\nRETURN 5\nENDPROCEDURE\nCALL P", "PROCEDURE P(a : INTEGER)\nENDPROCEDURE\nCALL P", "PROCEDURE P(a : INTEGER)\nENDPROCEDURE\nCALL P(1, 2)",
+            "RETURN 5", "PROCEDURE P\nRETURN 5\nENDPROCEDURE\nCALL P",
+            "PROCEDURE Audit(v : INTEGER)\nOUTPUT v\nRETURN v + 1\nENDPROCEDURE\nFUNCTION Twice(n : INTEGER) RETURNS INTEGER\nCALL Audit(n)\nRETURN n * 2\nENDFUNCTION\nOUTPUT Twice(4)\nOUTPUT \"after\"",
+            "PROCEDURE Deep\nRETURN 7\nENDPROCEDURE\nPROCEDURE Mid\nCALL Deep\nOUTPUT \"mid\"\nENDPROCEDURE\nFUNCTION F() RETURNS INTEGER\nCALL Mid\nRETURN 1\nENDFUNCTION\nx <- F()\nOUTPUT x",
+            "FUNCTION G() RETURNS STRING\nRETURN \"g\"\nENDFUNCTION\nPROCEDURE P\nOUTPUT G()\nRETURN \"p\"\nENDPROCEDURE\nFUNCTION F() RETURNS STRING\nCALL P\nRETURN \"f\"\nENDFUNCTION\nOUTPUT F()",
+            "FUNCTION Inner(n : INTEGER) RETURNS INTEGER\nIF n > 2 THEN\nRETURN 100\nENDIF\nRETURN n\nENDFUNCTION\nFUNCTION Outer(n : INTEGER) RETURNS INTEGER\nDECLARE t : INTEGER\nt <- Inner(n) + Inner(n + 2)\nRETURN t + 1\nENDFUNCTION\nOUTPUT Outer(1), \" \", Outer(5)", "PROCEDURE P(a : INTEGER)\nENDPROCEDURE\nCALL P", "PROCEDURE P(a : INTEGER)\nENDPROCEDURE\nCALL P(1, 2)",
             "PROCEDURE P(a : INTEGER)\nENDPROCEDURE\nCALL P(\"s\")", "PROCEDURE P(BYREF a : INTEGER)\nENDPROCEDURE\nCALL P(1 + 2)", "PROCEDURE P(BYREF a : INTEGER)\nENDPROCEDURE\nCALL P(5)",
             "PROCEDURE P(BYREF a : REAL)\nENDPROCEDURE\nx <- 1\nCALL P(x)", "CALL Nope", "OUTPUT Nope(1)", "FUNCTION F(BYREF a : INTEGER) RETURNS INTEGER\na <- a + 1\nRETURN a\nENDFUNCTION\nx <- 1\nOUTPUT F(x), x\nOUTPUT F(2)",
             "PROCEDURE P(a : INTEGER)\nOUTPUT a\nENDPROCEDURE\nPROCEDURE P(a : INTEGER)\nENDPROCEDURE", "FUNCTION LENGTH(s : STRING) RETURNS INTEGER\nRETURN 1\nENDFUNCTION",
